@@ -357,7 +357,7 @@ def sparse_stats(src, dst):
                 kept += 1
     return n, kept
 
-CLASS_KEYS = ("dir-mtime-preexisting", "deep-path", "iso9660-rr-moved")
+CLASS_KEYS = ("dir-mtime-preexisting", "deep-path", "iso9660-rr-moved", "xar-toc-invalid-char")
 
 def class_hit(ctx, key, tag, what, replay):
     rec = ctx.classes.setdefault(key, dict(what=what, replay=replay, tags=[], first=tag))
@@ -614,6 +614,15 @@ def run_tree_1(rep, ctx, idx, tree, stats, formats, clis, probe, do_compare, kp)
                 shutil.rmtree(dst, ignore_errors=True)
                 continue
         msgs = [m.decode("utf-8", "replace") for m in msgs]
+        if fmt == "xar" and any("PCDATA invalid Char" in m for m in msgs):
+            # the xar writer copies the '#!' line of a file into the XML table of contents verbatim: a file that starts
+            # with '#!' followed by bytes that are not XML characters makes the whole archive unreadable
+            class_hit(ctx, "C12:xar-toc-invalid-char", "lib-xar",
+                      "xar archive written from the tree cannot be read back: %s" % "; ".join(msgs)[:200],
+                      dict(replay_base, pipeline="lib-xar", case=case, messages=msgs[:10]))
+            stats["evaluations"] += 1
+            shutil.rmtree(dst, ignore_errors=True)
+            continue
         # refusals the capability table predicts are not errors
         unexpected = [m for m in msgs if not expected_message(m, caps, fmt)]
         diffs = check("lib-" + fmt, caps, dst, status if status != 0 else (1 if unexpected else 0),
